@@ -13,7 +13,8 @@ class _Exit(Exception):
 
 
 class MustFlow:
-    def __init__(self, transfer, on_return=None, loops_once=False, branch=None):
+    def __init__(self, transfer, on_return=None, loops_once=False, branch=None, on_expr=None):
+        self.on_expr = on_expr
         self.transfer = transfer
         self.on_return = on_return or (lambda node, facts: None)
         self.loops_once = loops_once
@@ -45,7 +46,8 @@ class MustFlow:
             self._loop_exits.append(facts) if hasattr(self, "_loop_exits") else None
             return None
         if isinstance(s, ast.If):
-            facts = self.transfer(s.test, facts) if False else facts
+            if self.on_expr:
+                self.on_expr(s.test, facts)
             dec = self.branch(s.test, facts) if self.branch else None
             if dec is True:
                 return self.block(s.body, facts)
@@ -61,7 +63,12 @@ class MustFlow:
         if isinstance(s, (ast.For, ast.While)):
             saved = getattr(self, "_loop_exits", None)
             self._loop_exits = []
-            body = self.block(s.body, facts)
+            if self.on_expr:
+                self.on_expr(s.iter if isinstance(s, ast.For) else s.test, facts)
+            bfacts = facts
+            if isinstance(s, ast.For):
+                bfacts = self.transfer(ast.copy_location(ast.Assign(targets=[s.target], value=ast.Constant(value=None)), s), facts)
+            body = self.block(s.body, bfacts)
             exits = self._loop_exits
             if saved is None:
                 del self._loop_exits
@@ -83,12 +90,20 @@ class MustFlow:
                 return self.block(s.orelse, r)
             return r
         if isinstance(s, ast.With):
+            for it in s.items:
+                if self.on_expr:
+                    self.on_expr(it.context_expr, facts)
+                if it.optional_vars is not None:
+                    facts = self.transfer(ast.copy_location(ast.Assign(targets=[it.optional_vars], value=ast.Constant(value=None)), s), facts)
             return self.block(s.body, facts)
         if isinstance(s, ast.Try):
             a = self.block(s.body, facts)
             outs = [] if a is None else [a]
             for h in s.handlers:
-                hb = self.block(h.body, facts)
+                hf = facts
+                if h.name:
+                    hf = facts | {h.name}
+                hb = self.block(h.body, hf)
                 if hb is not None:
                     outs.append(hb)
             if not outs:
@@ -106,3 +121,124 @@ class MustFlow:
 
 def _is_true(test):
     return isinstance(test, ast.Constant) and test.value is True
+
+
+def possibly_undefined(fnode):
+    """[(Name node, name)] loads of a local name that is not definitely assigned on every
+    path reaching the load (nested function bodies and comprehension variables excluded)."""
+    params = {a.arg for a in fnode.args.posonlyargs + fnode.args.args + fnode.args.kwonlyargs}
+    if fnode.args.vararg:
+        params.add(fnode.args.vararg.arg)
+    if fnode.args.kwarg:
+        params.add(fnode.args.kwarg.arg)
+    locals_ = set()
+    globs = set()
+
+    def own_nodes(node):
+        stack = [node]
+        while stack:
+            n = stack.pop()
+            yield n
+            for ch in ast.iter_child_nodes(n):
+                if isinstance(ch, (ast.FunctionDef, ast.AsyncFunctionDef, ast.Lambda, ast.ClassDef)) and ch is not node:
+                    if isinstance(ch, (ast.FunctionDef, ast.ClassDef)):
+                        locals_.add(ch.name)
+                    continue
+                stack.append(ch)
+
+    comp_vars = set()
+    for n in own_nodes(fnode):
+        if isinstance(n, ast.Name) and isinstance(n.ctx, ast.Store):
+            locals_.add(n.id)
+        elif isinstance(n, ast.Global):
+            globs.update(n.names)
+        elif isinstance(n, ast.comprehension):
+            for x in ast.walk(n.target):
+                if isinstance(x, ast.Name):
+                    comp_vars.add(x.id)
+        elif isinstance(n, (ast.Import, ast.ImportFrom)):
+            for a in n.names:
+                locals_.add((a.asname or a.name).split(".")[0])
+        elif isinstance(n, ast.ExceptHandler) and n.name:
+            locals_.add(n.name)
+    locals_ -= globs
+    found = []
+
+    def loads(expr, facts):
+        for n in own_nodes(expr):
+            if isinstance(n, ast.Name) and isinstance(n.ctx, ast.Load):
+                if n.id in locals_ and n.id not in facts and n.id not in params and n.id not in comp_vars:
+                    found.append((n, n.id))
+
+    def stores(node):
+        out = set()
+        for n in own_nodes(node):
+            if isinstance(n, ast.Name) and isinstance(n.ctx, ast.Store):
+                out.add(n.id)
+        return out
+
+    def transfer(s, facts):
+        if isinstance(s, (ast.FunctionDef, ast.ClassDef)):
+            return facts | {s.name}
+        if isinstance(s, (ast.Import, ast.ImportFrom)):
+            return facts | {(a.asname or a.name).split(".")[0] for a in s.names}
+        if isinstance(s, ast.Assign):
+            loads(s.value, facts)
+            for t in s.targets:
+                loads(t, facts)  # subscript/attribute targets read their base
+            return facts | stores(s)
+        if isinstance(s, ast.AugAssign):
+            loads(s.value, facts)
+            if isinstance(s.target, ast.Name):
+                if s.target.id in locals_ and s.target.id not in facts and s.target.id not in params:
+                    found.append((s.target, s.target.id))
+            else:
+                loads(s.target, facts)
+            return facts | stores(s)
+        if isinstance(s, ast.Delete):
+            return facts - {t.id for t in s.targets if isinstance(t, ast.Name)}
+        loads(s, facts)
+        return facts | stores(s)
+
+    class CorrFlow(MustFlow):
+        """correlated tests: a name assigned only under `if T:` counts as assigned inside a
+        later `if T:` with the same test text, provided no variable of T was reassigned"""
+
+        def stmt(self, s, facts):
+            if isinstance(s, ast.If):
+                t = ast.unparse(s.test)
+                tvars = {n.id for n in ast.walk(s.test) if isinstance(n, ast.Name)}
+                self.on_expr(s.test, facts)
+                inb = facts | {f[2] for f in facts if isinstance(f, tuple) and f[0] == "cond" and f[1] == t}
+                a = MustFlow.block(self, s.body, inb)
+                b = MustFlow.block(self, s.orelse, facts)
+                if a is None:
+                    return b
+                if b is None:
+                    return a
+                j = a & b
+                body_stores = set()
+                for st in s.body:
+                    body_stores |= stores(st)
+                if not (tvars & body_stores):
+                    for nm in a - b:
+                        if isinstance(nm, str):
+                            j = j | {("cond", t, nm)}
+                return j
+            out = MustFlow.stmt(self, s, facts)
+            if out is not None and isinstance(s, (ast.Assign, ast.AugAssign, ast.For, ast.With)):
+                st = stores(s) if not isinstance(s, (ast.For, ast.With)) else set()
+                if st:
+                    out = frozenset(f for f in out if not (isinstance(f, tuple) and f[0] == "cond" and
+                                                           ({n.id for n in ast.walk(ast.parse(f[1], mode="eval")) if isinstance(n, ast.Name)} & st)))
+            return out
+
+    CorrFlow(transfer, on_expr=loads, loops_once=False).run(fnode, frozenset(params))
+    seen = set()
+    out = []
+    for n, nm in found:
+        k = (n.lineno, n.col_offset)
+        if k not in seen:
+            seen.add(k)
+            out.append((n, nm))
+    return out
